@@ -66,7 +66,7 @@ PRELUDE_NAMES = frozenset(make_namespace().keys())
 
 class Stmt(object):
     __slots__ = ('lines', 'kind', 'sid', 'str_body', 'comment_only', 'is_expr', 'value_kind', 'directive',
-                 'ps1_lines')
+                 'ps1_lines', 'forced_want', 'expected_exc')
 
     def __init__(self, lines, kind, sid, str_body=(), comment_only=False, is_expr=False, value_kind=None,
                  ps1_lines=()):
@@ -79,6 +79,8 @@ class Stmt(object):
         self.value_kind = value_kind            # None | 'none' | 'value' | 'print+value' | 'print'
         self.directive = None
         self.ps1_lines = frozenset(ps1_lines)   # line indices (besides 0) that start a new top level statement
+        self.forced_want = None                 # want lines that must follow (the traceback block of a raising statement)
+        self.expected_exc = None                # name of the exception type the statement raises on purpose
 
     def text(self):
         return '\n'.join(self.lines)
@@ -96,7 +98,8 @@ class ProgramGen(object):
                  'import', 'augassign', 'lambda', 'dictlit', 'nestedfor', 'callml', 'emit_comment', 'tryfinally',
                  'globaldef', 'noeol', 'fstring', 'walrus', 'match', 'delvar', 'asyncfor', 'asynccomp', 'decoasync',
                  'docstr_in_def', 'deepnest', 'unicode', 'starunpack', 'yieldgen', 'condexpr', 'withas', 'stdoutwrite',
-                 'elifchain', 'commentbody', 'parenwith', 'tripledq', 'mlstr_trailing']
+                 'elifchain', 'commentbody', 'parenwith', 'tripledq', 'mlstr_trailing', 'raises_expected',
+                 'raises_compound']
 
     def __init__(self, rng, kinds=None, allow_async=True):
         self.rng = rng
@@ -280,6 +283,16 @@ class ProgramGen(object):
         if k == 'tripledq':
             self.defined_vars.append('s%d' % i)
             return S(["s%d = '''it's \"q\" %d" % (i, i), "'''; quiet(%d)" % i], k, i, str_body=(1,), is_expr=True)
+        if k in ('raises_expected', 'raises_compound'):
+            # prints, then raises; the traceback block under it makes the exception an expected one and the
+            # doctest carries on
+            if k == 'raises_expected':
+                st = S(['emit(%d) or {}[%d]' % (i, i)], k, i, is_expr=True)
+            else:
+                st = S(['for k%d in range(1):' % i, '    emit(%d)' % i, '    raise KeyError(%d)' % i], k, i)
+            st.forced_want = ['Traceback (most recent call last):', 'KeyError: %d' % i]
+            st.expected_exc = 'KeyError'
+            return st
         if k == 'mlstr_trailing':
             # significant trailing blanks inside a string literal
             self.defined_vars.append('s%d' % i)
@@ -333,6 +346,12 @@ def run_reference(stmts, repl_values=False, stop_on_error=True):
                     else:
                         exec(code, ns)
         except Exception as ex:
+            if st.expected_exc is not None and type(ex).__name__ == st.expected_exc:
+                # raised on purpose, the doctest expects it: the program carries on
+                res.outs.append(buf.getvalue())
+                res.values.append(NOVALUE)
+                res.traces.append(len(T))
+                continue
             res.error = (idx, ex)
             res.outs.append(buf.getvalue())
             res.values.append(NOVALUE)
@@ -456,6 +475,12 @@ class Layout(object):
                         wl = cand
             elif si in wants:
                 wl = wants[si]
+            if st.forced_want is not None:
+                # whatever was printed before (by this statement or earlier ones) is left out of later wants: a later
+                # want then holds only text written after the traceback block, which is right under every reading of
+                # "since the previous want"
+                wl = list(st.forced_want)
+                features.add('expected-exception')
             if wl is not None:
                 for w in wl:
                     lines.append(pad + w)
